@@ -1670,7 +1670,9 @@ namespace bloch::runtime {
         bool prevStatic = m_inStaticContext;
         bool prevCtor = m_inConstructor;
         bool prevDtor = m_inDestructor;
-        m_currentClassCtx = staticDispatchClass ? staticDispatchClass : method->owner;
+        // Bare names in the body are bound against the class that declares the method, whatever
+        // the static type of the receiver at the call site.
+        m_currentClassCtx = method->owner ? method->owner : staticDispatchClass;
         m_inStaticContext = method->isStatic;
         m_inConstructor = false;
         m_inDestructor = false;
@@ -2949,6 +2951,15 @@ namespace bloch::runtime {
                             throw BlochError(
                                 ErrorCategory::Runtime, callExpr->line, callExpr->column,
                                 "instance method '" + name + "' requires an object receiver");
+                        }
+                        // The lookup above starts at the declaring class of the running method;
+                        // an override further down the receiver's hierarchy still wins.
+                        // Constructors and destructors keep binding to their own class.
+                        if (method->isVirtual && receiver->cls && !m_inConstructor &&
+                            !m_inDestructor) {
+                            auto it = receiver->cls->vtable.find(method->signature);
+                            if (it != receiver->cls->vtable.end())
+                                method = it->second;
                         }
                     }
                     return callMethod(method, staticCls, receiver, args);
